@@ -8,7 +8,8 @@ spec/EgoCrash (EgoCrash = host model, EgoCrashDefs = edits + contract, _Gen, _Tr
      every position - the slice of the tier and seed - plus a sample of second edits.  TLC computes the mutated token
      sequences; python only joins the spellings (and expands the named byte blobs).
   3. the texts are run by the real code through four doors: "lib" (main.go's own app.Run(ego run file) repeated in one
-     process under recover(), harness/c07), "server" (POST /admin/run of a real `ego server`), "run" (`ego run file`),
+     process under recover(), harness/c07), "server" (POST /admin/run of a real `ego server`; the texts that did not run into
+     the time bound in-process, plus a few that did), "run" (`ego run file`),
      "repl" (`ego run` reading the program from standard input); every execution is logged as an observation record.
      What panicked in-process or was recovered by the router is also sent through `ego run` and the console.
   4. F binding: EgoCrash_Trace judges every record with the contract Post (Outcome in AllowedEnd(entry)); a failing
@@ -343,7 +344,9 @@ def run_server(pool, items, nthreads, tmo):
     flight is tried again alone on a fresh server, which is what attributes the death.  Texts that time out may have left
     a goroutine spinning in the server: after every 10 time-outs the clients pause and a fresh server is started."""
     res, lock, gate = {}, threading.Lock(), threading.Condition()
-    state = {"gen": pool.start(), "suspects": [], "restarts": 0, "planned": 0, "timeouts": 0, "n_in": 0, "pausing": False}
+    if pool.srv is None or not pool.srv.alive():
+        pool.start()
+    state = {"gen": pool.gen, "suspects": [], "restarts": 0, "planned": 0, "timeouts": 0, "n_in": 0, "pausing": False}
     TMO = {"timeout": True, "oom": False, "trace": False, "signal": 0, "alive": True, "recovered": False,
            "err": False, "kind": "", "site": "", "head": "", "rc": 0}
 
@@ -459,7 +462,7 @@ def run_server(pool, items, nthreads, tmo):
                 o = dict(TMO, timeout=False, oom=oom, trace=tr and not oom, alive=False, err=True, kind=kind or "died", site=site,
                          head=head, rc=-1, stderr_tail=trace_excerpt(pool.output()))
         res[cid] = o
-    return res, state["restarts"]
+    return res, state["restarts"] + state["planned"]
 
 
 # ---------------------------------------------------------------- the check
@@ -592,12 +595,19 @@ def run():
         try:
             with ThreadPoolExecutor(max_workers=4) as ex:
                 f_lib = ex.submit(run_lib, testbin, env, sd, items, 8 if thorough else 6, 2000)
-                f_srv = ex.submit(run_server, pool, items, 8, 3 + 0.5 * load_factor())
+                f_boot = ex.submit(pool.start)                      # the scratch server boots meanwhile
                 nreal = 1500 if thorough else 60
                 pick = rng.sample(items, min(nreal * 2, len(items)))
                 f_run = ex.submit(run_real, ego, env, sd, pick[:nreal], "run", 12 if thorough else 8)
                 f_rep = ex.submit(run_real, ego, env, sd, pick[nreal:], "repl", 12 if thorough else 8)
-                lib, (srv, restarts) = f_lib.result(), f_srv.result()
+                lib = f_lib.result()
+                f_boot.result()
+                # texts that ran into the time bound in-process would do the same inside the server and leave it spinning or
+                # holding blocked goroutines: only a few of them go through the server door (selection, not a verdict)
+                slow = [it for it in items if lib.get(it[0], {}).get("timeout")]
+                keep = {it[0] for it in rng.sample(slow, min(len(slow), 40 if thorough else 8))}
+                sitems = [it for it in items if not lib.get(it[0], {}).get("timeout") or it[0] in keep]
+                srv, restarts = run_server(pool, sitems, 8, 3 + 0.5 * load_factor())
                 runs, repl = f_run.result(), f_rep.result()
         finally:
             pool.stop()
